@@ -1235,8 +1235,15 @@ def bi_range(I, args, kw):
     if len(args) == 2:
         return VRange(args[0], args[1], 1)
     st = const_of(args[2])
-    if not isinstance(st, int) or st == 0:
-        raise Unsupported("range with symbolic step")
+    if isinstance(st, bool) or st == 0:
+        raise Unsupported("range step")
+    if not isinstance(st, int):
+        if not isinstance(args[2], VInt):
+            raise Unsupported("range with a non-int step")
+        I.require_defined(args[2].e != 0, "ValueError", "range() arg 3 must not be zero")
+        if not I.path.known(args[2].e > 0):
+            raise Unsupported("range with a symbolic step not known to be positive")
+        return VRange(args[0], args[1], args[2])      # symbolic positive step (see _iter_protocol)
     return VRange(args[0], args[1], st)
 
 
@@ -1853,7 +1860,7 @@ def comprehension(I, n, env):
         base = inner
         mk_item = lambda idx: VTuple([VInt(idx + to_int(src.start)), base.get(idx)])
     elif isinstance(src, VRange):
-        if src.step != 1:
+        if isinstance(src.step, V) or src.step != 1:
             raise Unsupported("comprehension over stepped range")
         lo, hi = to_int(src.lo), to_int(src.hi)
         cnt = z3.If(hi > lo, hi - lo, 0)
@@ -2030,6 +2037,34 @@ def _iter_protocol(I, it):
         if kind[0] == "seq":
             return ("seq", kind[1], lambda i: VTuple([VInt(st + i), kind[2](i)]))
         raise Unsupported("enumerate over map")
+    if isinstance(it, VRange) and isinstance(it.step, V):
+        # range(lo, hi, s) with a symbolic step s > 0: element i is lo + i*s.  To stay linear, i*s is the
+        # uninterpreted range_mul(i, s) constrained by true facts of multiplication by a positive number only:
+        # range_mul(0,s) = 0, monotone in i, the successor equation at the indices the loop touches, and the
+        # defining inequalities of the length n:  lo + (n-1)*s < hi <= lo + n*s  (n = 0 iff hi <= lo).
+        p = I.path
+        lo, hi = to_int(it.lo), to_int(it.hi)
+        s = p.fresh("range_step", z3.IntSort())     # a constant, so that range_mul(i, s) can be used in triggers
+        p.assume(s == to_int(it.step))
+        mul = z3.Function("range_mul", z3.IntSort(), z3.IntSort(), z3.IntSort())
+        n = p.fresh("range_n", z3.IntSort())
+        a, b = z3.Ints("rm_a rm_b")
+        p.assume(z3.And(mul(0, s) == 0, mul(1, s) == s))
+        p.assume(z3.ForAll([a, b], z3.Implies(z3.And(0 <= a, a <= b), mul(a, s) <= mul(b, s)),
+                           patterns=[z3.MultiPattern(mul(a, s), mul(b, s))]))
+        p.assume(n >= 0)
+        p.assume((n == 0) == (hi <= lo))
+        p.assume(z3.Implies(n > 0, z3.And(mul(n, s) == mul(n - 1, s) + s, lo + mul(n - 1, s) < hi, hi <= lo + mul(n, s))))
+        I.ver.note_assumption("range(lo, hi, s) with symbolic s>0: i*s is the uninterpreted range_mul(i,s) with "
+                              "range_mul(0,s)=0, monotonicity, successor equations at touched indices, and the "
+                              "defining inequalities of the range length")
+
+        def item(i):
+            p.assume(z3.Implies(i >= 0, mul(i + 1, s) == mul(i, s) + s))
+            return VInt(lo + mul(i, s))
+        j = z3.Int("rg_j")
+        item.seqv = VSeq(z3.Lambda([j], lo + mul(j, s)), n, TInt, "list")
+        return ("seq", n, item)
     if isinstance(it, VRange):
         lo, hi = to_int(it.lo), to_int(it.hi)
         clo, chi = const_of(VInt(lo)), const_of(VInt(hi))
@@ -2086,7 +2121,7 @@ def exec_for(I, s, env):
         n, item = proto[1], proto[2]
         if spec is None:
             return _unroll_for(I, s, env, n, item)
-        seqv = VSeq(it.arr, it.n, it.et, "list") if isinstance(it, VSeq) else None
+        seqv = VSeq(it.arr, it.n, it.et, "list") if isinstance(it, VSeq) else getattr(item, "seqv", None)
         return _for_seq_inv(I, s, env, spec, n, item, seqv)
     # iteration over an unordered finite set / map domain
     m = proto[1]
